@@ -215,7 +215,9 @@ inductive Outcome
   | errProvider          -- the error returned by ClusterConfig.AuthProvider for the host
   | errBoth              -- NewSession: "Can't use both Authenticator and AuthProvider in cluster config."
   | errTlsVerify         -- crypto/tls rejected the server's certificate (WrapTLS returns the handshake error)
-  | crash                -- nil `challenger` dereferenced in authenticateHandshake (process dies)
+  | errNoChallenger      -- AUTH_CHALLENGE while `challenger` is nil: "received AUTH_CHALLENGE but the authenticator
+                         -- provided no challenger" (repair of KF-C20-3 / KF-C05-24; the nil interface was called before)
+  | crash                -- the process dies (no trace of the model ends here: C20_no_crash)
   deriving DecidableEq, Repr
 
 /-- one answer of a caller-supplied (scripted) Authenticator to a `Challenge` call -/
@@ -278,7 +280,7 @@ def authLoop (chal : Option AuthImpl) : List SFrame → Trace
     | some a => (Trace.stop a.success).pre [] [.success d]
   | .authChallenge d :: rest =>
     match chal with
-    | none => .stop .crash                                  -- `challenger.Challenge(v.data)` on a nil interface
+    | none => .stop .errNoChallenger                        -- `if challenger == nil { return error }`
     | some a =>
       match a.challenge d with
       | .error e => (Trace.stop e).pre [] [.challenge d]
